@@ -23,9 +23,13 @@ def scaled_cmp_sides(B, w, q, M2, E1):
     return lhs, rhs
 
 
-def rn_fields(B, fmt, w, q, f, e_val):
+def rn_fields(B, fmt, w, q, f, e_val, upper_closed=False):
     """Boolean term: the float with fraction field term `f` (0 <= f < 2^p1) and *concrete*
-    exponent field e_val is the round-to-nearest-even value of w * 10^q  (w > 0 a term, q int)."""
+    exponent field e_val is the round-to-nearest-even value of w * 10^q  (w > 0 a term, q int).
+
+    upper_closed: instead demand that every real in [lower bound, w*10^q) rounds to that float, i.e.
+    w*10^q <= upper midpoint (non-strict whatever the parity) - the form needed for the open end of a
+    truncated significand's interval [w, w+1)."""
     F = FORMATS[fmt]
     p1, bias, inf = F["p1"], F["bias"], F["inf"]
     if e_val < 0 or e_val > inf:
@@ -33,6 +37,8 @@ def rn_fields(B, fmt, w, q, f, e_val):
     if e_val == inf:
         # +infinity:  f == 0  and  V >= (2^(p1+2) - 1) * 2^(inf - 2 - bias)
         lhs, rhs = scaled_cmp_sides(B, w, q, T.const((1 << (p1 + 2)) - 1), inf - 2 - bias)
+        if upper_closed:
+            return B.eq(f, T.const(0))
         return B.band_bool(B.eq(f, T.const(0)), B.ge(lhs, rhs))
     hidden = (1 << p1) if e_val > 0 else 0
     M = B.add(f, T.const(hidden))
@@ -41,6 +47,8 @@ def rn_fields(B, fmt, w, q, f, e_val):
     # upper:  V < (2M+1)*2^(E-1)  or (equal and M even)
     up_l, up_r = scaled_cmp_sides(B, w, q, B.add(B.mul(M, T.const(2)), T.const(1)), E - 1)
     upper = B.bor_bool(B.lt(up_l, up_r), B.band_bool(B.eq(up_l, up_r), even))
+    if upper_closed:
+        return B.le(up_l, up_r)
     # lower
     lo_l, lo_r = scaled_cmp_sides(B, w, q, B.sub(B.mul(M, T.const(2)), T.const(1)), E - 1)
     lower_plain = B.bor_bool(B.gt(lo_l, lo_r), B.band_bool(B.eq(lo_l, lo_r), even))
@@ -56,7 +64,7 @@ def rn_fields(B, fmt, w, q, f, e_val):
     return B.band_bool(upper, lower)
 
 
-def rn_extended(B, fmt, w, q, mant, exp):
+def rn_extended(B, fmt, w, q, mant, exp, upper_closed=False):
     """Boolean term: the ExtendedFloat (mant, exp) *as packed by extended_to_float* (mant | exp << p1)
     denotes RN(w * 10^q).  `exp` must have a small range; it is case-split."""
     F = FORMATS[fmt]
@@ -71,9 +79,9 @@ def rn_extended(B, fmt, w, q, mant, exp):
             continue
         # well-formed packing: mant < 2^p1, or the un-masked carry (mant == 2^p1, exp == 1) which ORs to e=1,f=0
         ok_plain = B.band_bool(B.band_bool(B.ge(mant, T.const(0)), B.lt(mant, T.const(1 << p1))),
-                               rn_fields(B, fmt, w, q, mant, e))
+                               rn_fields(B, fmt, w, q, mant, e, upper_closed))
         if e == 1:
-            carry = B.band_bool(B.eq(mant, T.const(1 << p1)), rn_fields(B, fmt, w, q, T.const(0), 1))
+            carry = B.band_bool(B.eq(mant, T.const(1 << p1)), rn_fields(B, fmt, w, q, T.const(0), 1, upper_closed))
             ok_plain = B.bor_bool(ok_plain, carry)
         cases.append(B.band_bool(here, ok_plain))
     return B.disj(cases)
@@ -131,3 +139,22 @@ def rn_bits_decimal(fmt, w, q):
     if q >= 0:
         return rn_bits_exact(fmt, w * 10 ** q, 1)
     return rn_bits_exact(fmt, w, 10 ** (-q))
+
+
+def interval_rounds_to(fmt, bits, w, q):
+    """Exact check (python ints): does EVERY real in [w, w+1) * 10^q round to the float `bits`?"""
+    if rn_bits_decimal(fmt, w, q) != bits:
+        return False
+    F = FORMATS[fmt]
+    p1, bias, inf = F["p1"], F["bias"], F["inf"]
+    e = bits >> p1
+    f = bits & ((1 << p1) - 1)
+    if e == inf:
+        return True
+    M = f + ((1 << p1) if e > 0 else 0)
+    E = max(e, 1) - bias
+    # (w+1)*10^q <= (2M+1)*2^(E-1)
+    s = q - (E - 1)
+    lhs = (w + 1) * 5 ** max(q, 0) * 2 ** max(s, 0)
+    rhs = (2 * M + 1) * 5 ** max(-q, 0) * 2 ** max(-s, 0)
+    return lhs <= rhs
